@@ -10,6 +10,11 @@ Verdict(e) ==
             CASE c = "InverseAfterForward" -> e.rtexp > -9
               [] c = "ForwardAfterInverse" -> e.rt2exp > -9
               [] c = "RotationOrthonormalDetOne" -> e.orthoexp > -12 \/ e.detexp > -12}
+    \* least-squares fit of one re-used object to exact images of its source points under a known map
+    [] e.op = "fit" -> (IF e.raised = 1 THEN {"FitTotal"}
+                        ELSE (IF e.resexp > -6 THEN {"FitReproducesPointPairs"} ELSE {})
+                             \cup (IF e.isometry = 1 /\ e.scaling6 # 1000000 THEN {"IsometryHasUnitScaling"} ELSE {})
+                             \cup (IF e.rtexp > -9 THEN {"InverseAfterForward"} ELSE {}))
     [] e.op = "warp" -> (IF e.raised = 1 THEN {"WarpTotal"}
                          ELSE IF e.res = WarpExpected(e) THEN {} ELSE {"WarpMovesVoxelsExactly"})
                         \cup (IF e.raised = 0 /\ e.second # "same" THEN {"WarpIndependentOfEarlierPayload"} ELSE {})
